@@ -78,7 +78,9 @@ func (core *JApiCore) findPaste(stack, checked map[string]struct{}, d *directive
 
 		macro, ok := core.macro[name]
 		if !ok {
-			return nil // will be reported when the PASTE is processed
+			// It would be reported when the PASTE is processed, but a macro which
+			// nobody pastes isn't processed.
+			return d.KeywordError("macro not found")
 		}
 
 		stack[name] = struct{}{}
